@@ -300,6 +300,7 @@ func c08(r *engine.Report, p *engine.Program) {
 		}
 	}
 	r.Min("R5-no-io-under-lock", 8)
+	requestIsolationRule(r, p, "R6-request-isolation")
 }
 
 func stripTemps(s string) string {
